@@ -89,9 +89,9 @@ Step(prog, w, i) ==
 EndPc(prog) == IF prog = <<>> THEN 0 ELSE LET n == Len(prog) pc == PcBefore(prog)[n] IN
                   IF prog[n].op = "org" THEN prog[n].addr ELSE pc + Size(prog[n])
 Close(w, pc) == LET w1 == NewRecord(w, pc) IN [w1 EXCEPT !.lost = w1.patches # <<>> \/ w1.exports # <<>>]    \* queues never written
-RECURSIVE RunFrom(_, _, _)
-RunFrom(prog, w, i) == IF i > Len(prog) THEN Close(w, EndPc(prog)) ELSE RunFrom(prog, Step(prog, w, i), i + 1)
-Written(prog) == RunFrom(prog, W0, 1)
+RECURSIVE WRunFrom(_, _, _)
+WRunFrom(prog, w, i) == IF i > Len(prog) THEN Close(w, EndPc(prog)) ELSE WRunFrom(prog, Step(prog, w, i), i + 1)
+Written(prog) == WRunFrom(prog, W0, 1)
 FileItems(prog) == Written(prog).out
 
 \* programs the assembler accepts without a diagnostic (the generators stay inside)
